@@ -241,6 +241,14 @@ bool guard(int n, const Ev& e, Fsm& fsm) {
     if (!std::is_same<Ev, msm::front::none>::value) after_callback(fsm);
     return v;
 }
+// deferral predicate (backmp11 is_event_deferred): logged like a guard, but no script position (it is const and may be
+// asked any number of times)
+template <class Ev, class Fsm>
+bool cond(int n, const Ev& e, const Fsm& fsm) {
+    bool v = (C().val >> n) & 1ULL;
+    tok("g" + std::to_string(n) + "=" + (v ? "1" : "0") + "/" + rt_describe(e) + owner_tag(&fsm));
+    return v;
+}
 template <class Ev, class Fsm>
 void action(int n, const Ev& e, Fsm& fsm) {
     link_check(fsm);
